@@ -20,7 +20,7 @@ use model::*;
 use scen::{RunResult, run_once};
 use vcore::{Report, Tier, Value, Violation, json};
 
-fn grid_rows(tier: Tier) -> Vec<Row> {
+fn grid_rows() -> Vec<Row> {
     let mut rows = Vec::new();
     for payload in [0usize, 1, 1200, 70_000] {
         let chunks: &[Chunk] = if payload <= 1200 { &[Chunk::One, Chunk::K, Chunk::All] } else { &[Chunk::K, Chunk::All] };
@@ -42,27 +42,11 @@ fn grid_rows(tier: Tier) -> Vec<Row> {
             }
         }
     }
-    if tier == Tier::Quick {
-        rows.retain(quick_grid_filter);
-    }
     rows
 }
 
-/// quick tier: a fixed sub-grid (every listed value of every dimension still occurs, the full
-/// product is the thorough tier)
-fn quick_grid_filter(r: &Row) -> bool {
-    // payloads 0 / 1: chunk sizes make no difference to the bytes on the wire -> only (all, all)
-    // and (1, 1); payload 1200 / 70000: all chunkings
-    let chunk_ok = match r.payload {
-        0 | 1 => (r.wchunk == r.rchunk) && r.wchunk != Chunk::K,
-        _ => true,
-    };
-    // API flavour alternates with the datagram dimension, stream limit with pacing
-    let api_ok = (r.api == Api::Io) == (r.dgrams == 0) || r.payload == 1200;
-    let limit_ok = (r.limit == 1) == (r.pacing == Pacing::Gated) || r.streams == Streams::Mixed3;
-    chunk_ok && api_ok && limit_ok
-}
-
+/// The "small half" of the grid that part B closes at every event: payloads that fit a few
+/// packets, chunk sizes 1000 / all, eager readers.
 fn close_rows(tier: Tier) -> Vec<Row> {
     let mut rows = Vec::new();
     let payloads: &[usize] = tier.pick(&[1200], &[1, 1200]);
@@ -75,8 +59,8 @@ fn close_rows(tier: Tier) -> Vec<Row> {
                             for limit in [1u32, 100] {
                                 let row = Row { payload, wchunk, rchunk, api, streams, dgrams, win, limit, pacing: Pacing::Eager };
                                 if tier == Tier::Quick {
-                                    // quick: one chunking per API, datagrams only together with the mixed streams
-                                    let ok = (api == Api::Io) == (wchunk == Chunk::K) && (dgrams == 2) == (streams == Streams::Mixed3) && (limit == 1) == (win == Win::Small);
+                                    // quick: one chunking per API flavour, stream limit 1 together with the small windows
+                                    let ok = (api == Api::Io) == (wchunk == Chunk::K) && (limit == 1) == (win == Win::Small);
                                     if !ok {
                                         continue;
                                     }
@@ -142,7 +126,22 @@ fn run_checked(report: &Report, agg: &Agg, spec: &RunSpec) -> RunResult {
     r
 }
 
+/// Enabling UDP_GRO on the first socket of the system (and closing the last one) flips a kernel
+/// static key, which costs ~100 ms of system time on a loaded machine; compio-quic enables it on
+/// every endpoint socket.  One idle socket with UDP_GRO held for the life of the process keeps the
+/// key enabled, so the thousands of endpoint sockets of this run are cheap to create and close.
+fn hold_udp_gro() -> Option<std::net::UdpSocket> {
+    use std::os::fd::AsRawFd;
+    let s = std::net::UdpSocket::bind("127.0.0.1:0").ok()?;
+    let one: libc::c_int = 1;
+    unsafe {
+        libc::setsockopt(s.as_raw_fd(), libc::SOL_UDP, libc::UDP_GRO, &one as *const _ as *const libc::c_void, std::mem::size_of::<libc::c_int>() as libc::socklen_t);
+    }
+    Some(s)
+}
+
 fn main() {
+    let _gro_keeper = hold_udp_gro();
     let args = vcore::parse_args();
     if args.property != "C16" {
         vcore::machinery_error("e_c16 serves property C16 only");
@@ -154,8 +153,17 @@ fn main() {
         let v: Value = vcore::serde_json::from_slice(&bytes).unwrap_or_else(|e| vcore::machinery_error(&format!("replay does not parse: {e}")));
         let spec = RunSpec::from_json(if v["replay"].is_object() { &v["replay"] } else { &v });
         let mut bad = false;
-        for i in 0..3 {
+        let reps: usize = std::env::var("C16_REPEAT").ok().and_then(|s| s.parse().ok()).unwrap_or(3);
+        let quiet = reps > 3;
+        for i in 0..reps {
             let r = run_once(&spec);
+            if quiet {
+                if r.hang.is_some() || !r.problems.is_empty() {
+                    bad = true;
+                    println!("replay run {i}: events={} wall={}ms problems={:?} hang={:?}", r.events, r.wall_ms, r.problems, r.hang);
+                }
+                continue;
+            }
             println!("replay run {i}: events={} wall={}ms problems={} hang={} marks={:?}", r.events, r.wall_ms, r.problems.len(), r.hang.is_some(), r.marks);
             for l in &r.log_tail {
                 println!("    {l}");
@@ -185,40 +193,54 @@ fn main() {
         unreproduced: Mutex::new(Vec::new()),
         max_ms: AtomicU64::new(0),
     };
-    // runs mostly wait (round trips, drain timers): more threads than cores
-    let nthreads = (vcore::threads() * 2).clamp(2, 64);
+    // part A runs are CPU-bound (a few ms each); part B runs mostly wait (drain timers ~ 3 PTO)
+    let threads_a = (vcore::threads() * 2).clamp(2, 64);
+    let threads_b = (vcore::threads() * 4).clamp(2, 96);
+    let drivers: &[Drv] = tier.pick(&[Drv::Uring], &[Drv::Uring, Drv::Poll]);
+    // the schedule is not owned: the thorough tier samples every grid row twice per driver
+    let reps_a: usize = tier.pick(1, 2);
 
     // ---- part A: the grid -------------------------------------------------------------------
-    let rows = grid_rows(tier);
-    vcore::par_for_each_n(&rows, nthreads, |i, row| {
-        let spec = RunSpec { row: row.clone(), probes: false, close: None };
-        let r = run_checked(&report, &agg, &spec);
+    let rows = grid_rows();
+    let mut items_a: Vec<RunSpec> = Vec::new();
+    for _ in 0..reps_a {
+        for &driver in drivers {
+            for row in &rows {
+                items_a.push(RunSpec { row: row.clone(), driver, probes: false, close: None });
+            }
+        }
+    }
+    vcore::par_for_each_n(&items_a, threads_a, |i, spec| {
+        let r = run_checked(&report, &agg, spec);
         agg.runs_a.fetch_add(1, Ordering::Relaxed);
-        if i % 97 == 0 {
-            report.sample(6, || json!({"part": "A", "row": row.json(), "events": r.events, "outcomes": r.outcomes, "wall_ms": r.wall_ms}));
+        if i % 397 == 0 {
+            report.sample(6, || json!({"part": "A", "spec": spec.json(), "events": r.events, "outcomes": r.outcomes, "wall_ms": r.wall_ms}));
         }
     });
     let t_a = report.elapsed();
 
     // ---- part B: close points ---------------------------------------------------------------
     let crow = close_rows(tier);
-    // reference runs: number of harness-visible events of the un-closed run
-    let refs: Vec<Mutex<u64>> = crow.iter().map(|_| Mutex::new(0)).collect();
-    vcore::par_for_each_n(&crow, nthreads, |i, row| {
-        let spec = RunSpec { row: row.clone(), probes: true, close: None };
+    // reference runs: number of harness-visible events of the un-closed run (per driver)
+    let ref_items: Vec<(usize, Drv)> = drivers.iter().flat_map(|&d| (0..crow.len()).map(move |i| (i, d))).collect();
+    let refs: Vec<Mutex<u64>> = ref_items.iter().map(|_| Mutex::new(0)).collect();
+    vcore::par_for_each_n(&ref_items, threads_a, |j, &(i, driver)| {
+        let spec = RunSpec { row: crow[i].clone(), driver, probes: true, close: None };
         let r = run_checked(&report, &agg, &spec);
-        *refs[i].lock().unwrap() = r.events;
+        *refs[j].lock().unwrap() = r.events;
     });
     let sides: &[Side] = tier.pick(&[Side::Client], &[Side::Client, Side::Server]);
     let mut items: Vec<RunSpec> = Vec::new();
     let mut max_events = 0u64;
-    for (i, row) in crow.iter().enumerate() {
-        let n = *refs[i].lock().unwrap();
+    let mut sum_events = 0u64;
+    for (j, &(i, driver)) in ref_items.iter().enumerate() {
+        let n = *refs[j].lock().unwrap();
         max_events = max_events.max(n);
+        sum_events += n;
         for kind in CloseKind::ALL {
             for &side in sides {
                 for k in 0..=n {
-                    items.push(RunSpec { row: row.clone(), probes: true, close: Some(ClosePlan { k, kind, side }) });
+                    items.push(RunSpec { row: crow[i].clone(), driver, probes: true, close: Some(ClosePlan { k, kind, side }) });
                 }
             }
         }
@@ -227,11 +249,11 @@ fn main() {
     let stride = 7919usize;
     let n_items = items.len();
     let order: Vec<usize> = if n_items > 0 && n_items % stride != 0 { (0..n_items).map(|j| (j * stride) % n_items).collect() } else { (0..n_items).collect() };
-    vcore::par_for_each_n(&order, nthreads, |j, &idx| {
+    vcore::par_for_each_n(&order, threads_b, |j, &idx| {
         let spec = &items[idx];
         let r = run_checked(&report, &agg, spec);
         agg.runs_b.fetch_add(1, Ordering::Relaxed);
-        if j % 501 == 0 {
+        if j % 1501 == 0 {
             report.sample(12, || json!({"part": "B", "spec": spec.json(), "events": r.events, "outcomes": r.outcomes, "wall_ms": r.wall_ms}));
         }
     });
@@ -303,21 +325,25 @@ fn main() {
                 "stream_limit": [1, 100],
                 "reader_pacing": ["eager", "gated: every read waits until the writer reports Blocked or has finished (bounded 1 s)"],
                 "rows": rows.len(),
-                "quick_subgrid": "payload 0/1 only with chunkings (1,1),(all,all); api alternates with datagrams except payload 1200; limit alternates with pacing except mixed3",
+                "drivers": drivers.iter().map(|d| d.name()).collect::<Vec<_>>(),
+                "samples_per_row_and_driver": reps_a,
             },
             "close_rows": {
                 "payload": tier.pick(vec![1200], vec![1, 1200]),
                 "chunkings": ["(1000,1000)", "(all,all)"],
                 "rows": crow.len(),
+                "quick_subset": "quick: payload 1200 only, chunking (1000,1000) with the io API and (all,all) with the chunks API, stream limit 1 together with the small windows / 100 with the default windows, closing side client only; thorough: the full product",
+                "drivers": drivers.iter().map(|d| d.name()).collect::<Vec<_>>(),
                 "close_kinds": ["conn-close", "endpoint-close", "endpoint-shutdown"],
                 "closing_side": sides.iter().map(|s| s.name()).collect::<Vec<_>>(),
                 "k": "0 ..= events of the un-closed reference run",
                 "max_events_of_a_reference_run": max_events,
+                "sum_of_reference_events": sum_events,
                 "close_runs": items.len(),
-                "pending_future_kinds": ["open_uni_wait", "open_bi_wait", "accept_uni", "accept_bi", "read", "received_reset", "stopped", "write (flow-control blocked)", "recv_datagram", "send_datagram_wait", "closed", "wait_incoming (endpoint kinds)", "shutdown (endpoint-shutdown)"],
+                "pending_future_kinds": ["open_uni_wait", "open_bi_wait", "accept_uni", "accept_bi", "read", "received_reset", "stopped", "write (flow-control blocked; small-window rows only)", "recv_datagram", "send_datagram_wait", "closed", "wait_incoming (endpoint kinds)", "shutdown (endpoint-shutdown)"],
             },
             "watchdog_s": scen::WATCHDOG.as_secs(),
-            "threads": nthreads,
+            "threads": [threads_a, threads_b],
         }),
     );
     report.extra(
@@ -325,7 +351,7 @@ fn main() {
         json!({
             "grid_runs": agg.runs_a.load(Ordering::Relaxed),
             "close_runs": agg.runs_b.load(Ordering::Relaxed),
-            "reference_runs": crow.len(),
+            "reference_runs": ref_items.len(),
             "reruns_after_watchdog": agg.reruns.load(Ordering::Relaxed),
             "grid_wall_s": t_a,
             "slowest_run_ms": agg.max_ms.load(Ordering::Relaxed),
